@@ -52,6 +52,8 @@ type Conn struct {
 	closed     bool
 	IDPrefix   string
 	cache      connector.IMAPState
+	// Dedup: CreateMessage answers with an existing remote message that has the same bytes and is in some mailbox
+	Dedup bool
 }
 
 func New(users []string, pass string) *Conn {
@@ -255,6 +257,22 @@ func (c *Conn) CreateMessage(ctx context.Context, cache connector.IMAPStateWrite
 	if err := c.fail("CreateMessage"); err != nil {
 		c.log("CreateMessage", err, string(mboxID))
 		return imap.Message{}, nil, err
+	}
+	if c.Dedup {
+		// a remote that de-duplicates: it answers with the message it already has (the same bytes, in some mailbox)
+		var found []string
+		for mid, m := range c.Messages {
+			if len(m.Mboxes) > 0 && string(m.Literal) == string(literal) {
+				found = append(found, string(mid))
+			}
+		}
+		if len(found) > 0 {
+			sort.Strings(found)
+			mid := imap.MessageID(found[0])
+			c.Messages[mid].Mboxes[mboxID] = true
+			c.log("CreateMessage", nil, string(mboxID), string(mid), "dedup")
+			return imap.Message{ID: mid, Flags: c.Messages[mid].Flags, Date: c.Messages[mid].Date}, literal, nil
+		}
 	}
 	id := c.NewMessageID()
 	c.Messages[id] = &Msg{Literal: append([]byte{}, literal...), Flags: flags, Date: date, Mboxes: map[imap.MailboxID]bool{mboxID: true}}
@@ -469,4 +487,27 @@ func (c *Conn) RenameInferiors(oldName, newName []string) {
 			c.Mailboxes[id] = append(append([]string{}, newName...), n[len(oldName):]...)
 		}
 	}
+}
+
+// Announce pushes a MailboxCreated update for every remote mailbox (the echo a real connector produces for what it
+// created) and waits for the acknowledgements; refusals are ignored. Returns the number of refused announcements.
+func (c *Conn) Announce(timeout time.Duration) int {
+	c.mu.Lock()
+	var idl []string
+	for id := range c.Mailboxes {
+		idl = append(idl, string(id))
+	}
+	sort.Strings(idl)
+	var ups []imap.Update
+	for _, id := range idl {
+		ups = append(ups, imap.NewMailboxCreated(c.mboxObj(imap.MailboxID(id))))
+	}
+	c.mu.Unlock()
+	refused := 0
+	for _, u := range ups {
+		if err, acked := c.Push(u, timeout); !acked || err != nil {
+			refused++
+		}
+	}
+	return refused
 }
